@@ -125,6 +125,9 @@ def gen_resp_plan(r, token: bytes, method="GET", opts=None):
         plan["gap"] = r.choice([0.0, 0.001, 0.02])
     if r.random() < 0.3:
         plan["h2_frame"] = r.choice([1, 10, 100, 1000, 16384])
+        # thousands of one-byte frames only burn scheduler steps (runs end at the cap)
+        while n / plan["h2_frame"] > 3000:
+            plan["h2_frame"] *= 10
     return plan
 
 
